@@ -104,6 +104,8 @@ def render(lay, idx, moff=0):
         out.append(f".{c['op']}(")
         if brk in ("paren", "all"):
             out.append("\n    ")
+            if c["deco"] == "cline":
+                out.append("# a comment line of its own\n    ")
         out.append(("\n    ".join(arg_lines[:-1]) + ("\n    " if len(arg_lines) > 1 else "")) + arg_lines[-1] + cmt)
         if brk in ("close", "all") or cmt:
             out.append("\n")
